@@ -20,6 +20,8 @@
 #include <unistd.h>
 #include <sys/wait.h>
 #include <cfenv>
+#include <cstring>
+#include <new>
 
 typedef AbstractModel<RealVector, RealVector> AnyModel;
 
@@ -241,6 +243,167 @@ static std::string runCost(AbstractLoss<LT, RealVector>& loss, std::size_t T, st
 	return out;
 }
 
+
+// ---------------------------------------------------------------------------------------------------------------------
+// efh: call histories on several ErrorFunction objects that share ONE model object (Model/ErrFnHist.lean).
+// efh vec|cls | nIn layers.. | T | points (flat, np each) | X | labels | partitions (';'-separated) | weights | strength mask.. |
+//     objects (';'-separated: plain|w|mini loss par|- partition none|one|two) | steps (';'-separated:
+//     e o pt | d o pt | set pt | copy o | asg dst src | init o | thr T)
+// Output: the results of the e/d steps joined by " ## "; a mini-batch step prints "{@<drawn batch> result}".
+// Oracle: every e/d step is repeated on a freshly built model + loss + data set + ErrorFunction of the same flavour.
+template<class LT> struct LossFactory;
+template<> struct LossFactory<RealVector>{
+	static AbstractLoss<RealVector, RealVector>* make(std::string const& name, double par){
+		if(name == "squared") return new SquaredLoss<>();
+		if(name == "epshinge") return new EpsilonHingeLoss(par);
+		if(name == "sqepshinge") return new SquaredEpsilonHingeLoss(par);
+		return nullptr;
+	}
+};
+template<> struct LossFactory<unsigned int>{
+	static AbstractLoss<unsigned int, RealVector>* make(std::string const& name, double){
+		if(name == "squaredclass") return new SquaredLoss<RealVector, unsigned int>();
+		if(name == "hinge") return new HingeLoss();
+		if(name == "sqhinge") return new SquaredHingeLoss();
+		return nullptr;
+	}
+};
+static std::vector<std::vector<std::string> > splitSemi(std::vector<std::string> const& t){
+	std::vector<std::vector<std::string> > r(1);
+	for(auto const& w: t){ if(w == ";") r.push_back(std::vector<std::string>()); else r.back().push_back(w); }
+	if(r.size() == 1 && r[0].empty()) r.clear();
+	return r;
+}
+template<class LT>
+static bool makeData(std::vector<std::size_t> const& sizes, std::vector<double> const& xs, std::vector<double> const& labs, std::size_t nIn, std::size_t m,
+		LabeledData<RealVector, LT>& ds, std::size_t onlyBatch = std::size_t(-1)){
+	std::size_t B = sizes.size();
+	std::vector<RealMatrix> ins; std::vector<typename LabelIO<LT>::Batch> lbs; std::size_t pos = 0;
+	for(std::size_t b = 0; b != B; ++b){
+		RealMatrix X(sizes[b], nIn); for(std::size_t i = 0; i != sizes[b]; ++i) for(std::size_t j = 0; j != nIn; ++j) X(i,j) = xs[(pos+i)*nIn+j];
+		typename LabelIO<LT>::Batch lb; if(!LabelIO<LT>::make(labs, pos, sizes[b], m, lb)) return false;
+		if(onlyBatch == std::size_t(-1) || onlyBatch == b){ ins.push_back(X); lbs.push_back(lb); }
+		pos += sizes[b];
+	}
+	Data<RealVector> in(ins.size()); Data<LT> lab(ins.size());
+	for(std::size_t b = 0; b != ins.size(); ++b){ in.batch(b) = ins[b]; lab.batch(b) = lbs[b]; }
+	ds = LabeledData<RealVector, LT>(in, lab);
+	return true;
+}
+static Data<double> makeWeights(std::vector<std::size_t> const& sizes, std::vector<double> const& wt){
+	Data<double> wd(sizes.size()); std::size_t e = 0;
+	for(std::size_t b = 0; b != sizes.size(); ++b){ RealVector wb(sizes[b]); for(std::size_t i = 0; i != sizes[b]; ++i, ++e) wb(i) = wt[e]; wd.batch(b) = wb; }
+	return wd;
+}
+
+// Does the copy constructor of ErrorFunction initialise every member?  The copy is constructed twice by placement new into
+// buffers pre-filled with two different byte patterns; a word that shows the first pattern in the first copy and the second
+// pattern in the second copy was never written (finding F-C06-7: m_regularizer / m_regularizationStrength).
+static bool efCopyInitialisesAllMembers(){
+	static int cached = -1; if(cached >= 0) return cached == 1;
+	LinearModel<> model(1, 1, false); SquaredLoss<> loss; Data<RealVector> in(1), lab(1);
+	in.batch(0) = RealMatrix(1, 1, 1.0); lab.batch(0) = RealMatrix(1, 1, 0.0);
+	LabeledData<RealVector, RealVector> ds(in, lab);
+	ErrorFunction<> E(ds, &model, &loss); TwoNormRegularizer<> r; E.setRegularizer(0.5, &r);
+	alignas(16) static unsigned char bufA[sizeof(ErrorFunction<>)], bufB[sizeof(ErrorFunction<>)];
+	std::memset(bufA, 0xAB, sizeof bufA); std::memset(bufB, 0xCD, sizeof bufB);
+	ErrorFunction<>* a = new (bufA) ErrorFunction<>(E); ErrorFunction<>* b = new (bufB) ErrorFunction<>(E);
+	bool ok = true;
+	// only the members ErrorFunction itself declares (they follow the base-class subobject); the base class is default-constructed
+	for(std::size_t w = (sizeof(AbstractObjectiveFunction<RealVector, double>) + 7) / 8 * 8; w + 8 <= sizeof bufA; w += 8){
+		unsigned long long x, y; std::memcpy(&x, bufA + w, 8); std::memcpy(&y, bufB + w, 8);
+		if(x == 0xABABABABABABABABull && y == 0xCDCDCDCDCDCDCDCDull) ok = false;
+	}
+	a->~ErrorFunction(); b->~ErrorFunction();
+	cached = ok ? 1 : 0; return ok;
+}
+
+template<class LT>
+struct HistObj{
+	std::shared_ptr<ErrorFunction<> > ef;
+	std::string flavour, lossName, regKind; double par; std::size_t part;
+	std::shared_ptr<AbstractLoss<LT, RealVector> > loss;
+	std::shared_ptr<random::rng_type> rng;
+};
+template<class LT>
+static std::string runEfh(Secs const& secs){
+	Net net; if(!net.build(secs[1])) return "bad-op";
+	std::size_t np = net.model->numberOfParameters(), nIn = net.nIn, m = net.nOut;
+	std::vector<std::size_t> tv; std::vector<double> ptsFlat, xs, labs, wt, regv;
+	if(!vh::allNat(secs[2], 0, tv) || tv.size() != 1 || !nums(secs[3], ptsFlat) || !nums(secs[4], xs) || !nums(secs[5], labs) || !nums(secs[7], wt) || !nums(secs[8], regv)) return "bad-op";
+	if(np == 0 || ptsFlat.size() % np != 0 || ptsFlat.empty() || xs.size() % nIn != 0) return "bad-op";
+	std::size_t n = xs.size() / nIn; if(n == 0 || labs.size() != n*LabelIO<LT>::width(m)) return "bad-op";
+	std::vector<RealVector> pts; for(std::size_t k = 0; k != ptsFlat.size()/np; ++k){ RealVector p(np); for(std::size_t i = 0; i != np; ++i) p(i) = ptsFlat[k*np+i]; pts.push_back(p); }
+	std::vector<std::vector<std::size_t> > parts;
+	for(auto const& t: splitSemi(secs[6])){ std::vector<std::size_t> sz; if(!vh::allNat(t, 0, sz) || sz.empty()) return "bad-op"; std::size_t tot = 0; for(std::size_t x: sz) tot += x; if(tot != n) return "bad-op"; parts.push_back(sz); }
+	if(!wt.empty() && wt.size() != n) return "bad-op";
+	if(regv.empty() || (regv.size() != 1 && regv.size() != 1 + np)) return "bad-op";
+	double strength = regv[0]; RealVector mask(regv.size() - 1); for(std::size_t i = 0; i != mask.size(); ++i) mask(i) = regv[1+i];
+	auto setup = [&](OneNormRegularizer<>& r1, TwoNormRegularizer<>& r2){ if(mask.size()){ r1.setMask(mask); r2.setMask(mask); } };
+	OneNormRegularizer<> r1; TwoNormRegularizer<> r2; setup(r1, r2);
+	auto build = [&](HistObj<LT>& o, AnyModel* model, AbstractLoss<LT, RealVector>* loss, OneNormRegularizer<>& q1, TwoNormRegularizer<>& q2, std::size_t onlyBatch) -> ErrorFunction<>* {
+		LabeledData<RealVector, LT> ds; if(!makeData<LT>(parts[o.part], xs, labs, nIn, m, ds, onlyBatch)) return nullptr;
+		ErrorFunction<>* e = nullptr;
+		if(o.flavour == "w"){ WeightedLabeledData<RealVector, LT> wds(ds, makeWeights(parts[o.part], wt)); e = new ErrorFunction<>(wds, model, loss); }
+		else if(o.flavour == "mini" && onlyBatch == std::size_t(-1)){ e = new ErrorFunction<>(ds, model, loss, true); e->setRng(o.rng.get()); e->init(); }
+		else e = new ErrorFunction<>(ds, model, loss);
+		if(o.regKind == "one") e->setRegularizer(strength, &q1); else if(o.regKind == "two") e->setRegularizer(strength, &q2);
+		return e;
+	};
+	std::vector<HistObj<LT> > objs;
+	for(auto const& t: splitSemi(secs[9])){
+		if(t.size() != 5) return "bad-op";
+		HistObj<LT> o; o.flavour = t[0]; o.lossName = t[1]; o.par = 0; o.regKind = t[4];
+		if(t[2] != "-" && !parseDy(t[2], o.par)) return "bad-op";
+		try{ o.part = std::stoul(t[3]); }catch(...){ return "bad-op"; }
+		if(o.part >= parts.size() || (o.flavour != "plain" && o.flavour != "w" && o.flavour != "mini") || (o.flavour == "w" && wt.empty())) return "bad-op";
+		o.loss.reset(LossFactory<LT>::make(o.lossName, o.par)); if(!o.loss) return "bad-op";
+		o.rng.reset(new random::rng_type()); o.rng->seed(1000u + (unsigned)objs.size());
+		ErrorFunction<>* e = build(o, net.model, o.loss.get(), r1, r2, std::size_t(-1)); if(!e) return "bad-op";
+		o.ef.reset(e); objs.push_back(o);
+	}
+	if(objs.empty()) return "bad-op";
+	std::size_t T = tv[0]; omp_set_num_threads((int)T);
+	std::string out, orc; bool first = true;
+	for(auto const& t: splitSemi(secs[10])){
+		if(t.empty()) return "bad-op";
+		std::vector<std::size_t> a; std::vector<std::string> rest(t.begin() + 1, t.end());
+		if(!vh::allNat(rest, 0, a)) return "bad-op";
+		if((t[0] == "e" || t[0] == "d") && a.size() == 2 && a[0] < objs.size() && a[1] < pts.size()){
+			bool deriv = t[0] == "d"; HistObj<LT>& o = objs[a[0]]; RealVector const& p = pts[a[1]];
+			std::size_t B = parts[o.part].size(), idx = std::size_t(-1);
+			if(o.flavour == "mini"){ random::rng_type copy = *o.rng; idx = random::discrete(copy, std::size_t(0), B - 1); }
+			RealVector G; double v = deriv ? o.ef->evalDerivative(p, G) : o.ef->eval(p);
+			std::string res = showRes(v, deriv ? &G : nullptr);
+			out += (first ? "" : " ## ") + ("{@" + std::to_string(o.flavour == "mini" ? idx : 0) + " " + res + "}"); first = false;
+			// the same call on fresh objects
+			Net fresh; fresh.build(secs[1]);
+			std::unique_ptr<AbstractLoss<LT, RealVector> > loss2(LossFactory<LT>::make(o.lossName, o.par));
+			OneNormRegularizer<> q1; TwoNormRegularizer<> q2; setup(q1, q2);
+			std::unique_ptr<ErrorFunction<> > F(build(o, fresh.model, loss2.get(), q1, q2, idx));
+			RealVector Gf; double vf = deriv ? F->evalDerivative(p, Gf) : F->eval(p);
+			bool same = (v == vf || (std::isnan(v) && std::isnan(vf))) && G.size() == Gf.size();
+			for(std::size_t i = 0; same && i != G.size(); ++i) if(!(G(i) == Gf(i)) && !(std::isnan(G(i)) && std::isnan(Gf(i)))) same = false;
+			if(!same && orc.empty()) orc = " !oracle result-depends-on-history";
+		}
+		else if(t[0] == "set" && a.size() == 1 && a[0] < pts.size()) net.model->setParameterVector(pts[a[0]]);
+		else if(t[0] == "copy" && a.size() == 1 && a[0] < objs.size() && !efCopyInitialisesAllMembers()) return "unavailable";   // evaluating such a copy is undefined behaviour (F-C06-7)
+		else if(t[0] == "copy" && a.size() == 1 && a[0] < objs.size()){ HistObj<LT> c = objs[a[0]]; c.ef.reset(new ErrorFunction<>(*objs[a[0]].ef)); objs.push_back(c); }
+		else if(t[0] == "asg" && a.size() == 2 && a[0] < objs.size() && a[1] < objs.size()){
+#ifdef C06_HAVE_EF_ASSIGN
+			std::shared_ptr<ErrorFunction<> > keep = objs[a[0]].ef; *keep = *objs[a[1]].ef;
+			objs[a[0]] = objs[a[1]]; objs[a[0]].ef = keep;
+#else
+			return "unavailable";     // ErrorFunction::operator= cannot be instantiated on this tree (finding F-C06-6)
+#endif
+		}
+		else if(t[0] == "init" && a.size() == 1 && a[0] < objs.size()){ if(objs[a[0]].flavour == "mini") objs[a[0]].ef->setRng(objs[a[0]].rng.get()); objs[a[0]].ef->init(); }
+		else if(t[0] == "thr" && a.size() == 1 && a[0] >= 1){ T = a[0]; omp_set_num_threads((int)T); }
+		else return "bad-op";
+	}
+	return (first ? std::string("none") : out) + orc;
+}
+
 bool c06b_dispatch(Secs const& secs, bool floatMode, std::string& out){
 	(void)floatMode;
 	if(secs.empty() || secs[0].empty()) return false;
@@ -261,6 +424,18 @@ bool c06b_dispatch(Secs const& secs, bool floatMode, std::string& out){
 			else if(loss == "epshinge" && par.size() == 1) out = runEfL<RealVector>(deriv, EpsilonHingeLoss(par[0]), net, tv[0], params, sizes, xs, labs, secs[8]);
 			else if(loss == "sqepshinge" && par.size() == 1) out = runEfL<RealVector>(deriv, SquaredEpsilonHingeLoss(par[0]), net, tv[0], params, sizes, xs, labs, secs[8]);
 		}catch(shark::Exception const& e){ out = std::string("exception"); }
+		return true;
+	}
+	if(op == "efcopyprobe" && secs.size() == 1){
+		out = efCopyInitialisesAllMembers() ? "copy-initialises-all-members" : "copy-leaves-members-uninitialised !oracle F-C06-7-errorfunction-copy-leaves-regularizer-uninitialised";
+		return true;
+	}
+	if(op == "efh" && secs.size() == 11 && secs[0].size() == 2){
+		out = "bad-op";
+		try{
+			if(secs[0][1] == "vec") out = runEfh<RealVector>(secs);
+			else if(secs[0][1] == "cls") out = runEfh<unsigned int>(secs);
+		}catch(shark::Exception const&){ out = "exception"; }
 		return true;
 	}
 	if(op == "cost" && secs.size() == 7 && secs[0].size() == 2){
